@@ -10,6 +10,7 @@ L4  the strptime format tables of the grammars are exactly the forms the specifi
 Prints one JSON object; exit 0 if every lemma holds.
 """
 import json
+import os
 import sys
 import time
 
@@ -53,7 +54,7 @@ def l1():
 
 
 def l4():
-    sys.path.insert(0, "/repo")
+    sys.path.insert(0, os.environ.get("PVL_REPO", "/repo"))
     from pvl.grammar import PVLGrammar, ODLGrammar, PDSGrammar
     d = ("%Y-%m-%d", "%Y-%j")
     t = ("%H:%M", "%H:%M:%S", "%H:%M:%S.%f")
